@@ -57,6 +57,7 @@ def write(prop, tier, master, check, params, total, det, known_hits, unknown, wa
         "reach_probes": probes,
         "probes_stuck_at_zero": [],
         "distinct_abstract_states": len(total["states"]),
+        "distinct_counts_capped_at": 4000000,
         "distinct_op_outcome_3grams": len(total["grams"]),
         "determinism_selftest": det,
         "components": COMPONENTS,
